@@ -183,3 +183,86 @@ PROPS['C13'] = dict(
                   '3x1 variance-column path is exercised on the real code by the search step only)'],
     assumptions=['0.3 mm / 0.2 mm closure inherits the numeric gaps of C02/C03 (search only)'],
 )
+
+PROPS['C09'] = dict(
+    module='GeodeVerif.Proofs.C09', namespace='GeodeVerif.C09',
+    extra_modules=['GeodeVerif.Model.Purity'],
+    required_theorems=['no_global_writes', 'no_param_writes', 'no_alias_writes', 'self_writes_only_in_init',
+                       'all_functions_effect_free', 'functions_count', 'anchors_analysed',
+                       'library_history_independent', 'library_schedule_independent'],
+    needs_driver=False,
+    correspondence='corr_purity.py',
+    rule='static: every syntactic write in the six library modules, classified by root, regenerated from /repo on each run '
+         '(translator/effects.py). dynamic tie + search (harness/corr_purity.py): random call sequences of length 1..50 '
+         'over the public API (60 entries), deep bitwise snapshots of 173 module-level constants and of every mutable '
+         'argument before/after, repeated-call equality, the GEODEPY_VERIF hook log checked against the static table, '
+         'and the same sequences split over 2..8 threads; a call is non-trivial when it returned a value.',
+    trusted_base=['translator/effects.py: syntactic may-alias effect analysis (sound only up to the aliasing it models; every '
+                  'observed write must be predicted by it — checked dynamically on every run, not proved)',
+                  'Model/Purity.lean: abstract heap model; the link "effect-free ⇒ pure step" is the modelling assumption '
+                  '(field `sound` of LibModel)'],
+    assumptions=['thread schedules are sampled, not enumerated; the theorem that makes sampling sufficient is '
+                 'schedule_independent, which applies once the effect table is clean',
+                 'CPython/numpy/BLAS thread-safety and warnings bookkeeping are outside the model'],
+)
+
+XF_TB = ['the real-number reading of transform.py / constants.py produced by the translator; numpy matrices are expanded '
+         'into scalar sums at translation time',
+         'Spec (hand-written in the proof files): Helmert similarity formula t + (1+s)·R·x with the Australian rotation sign convention']
+
+PROPS['C06'] = dict(
+    module='GeodeVerif.Proofs.C06', namespace='GeodeVerif.C06',
+    required_theorems=['conform7_formula', 'conform7_total', 'conform7_close', 'round_trip_residual', 'round_trip_bound',
+                       'conform7_round_trip', 'catalogue_round_trip_bound', 'jacobian', 'vcv_is_JQJt', 'vcv_sym_psd',
+                       'vcv_returned_iff', 'neg_is_negation'],
+    tie_functions=['Transform.conform7', 'Constants.Transformation.neg', 'Constants.catalogue_Transformation',
+                   'Constants.catalogue_TransformationSD'],
+    tie_n={'quick': 4000, 'thorough': 200000},
+    probe='C06.py',
+    rule='tie: all octants to 5e7 m, the 120 shipped sets and random sets, PSD/rank-deficient covariances; GenF vs real '
+         'conform7 (scaled tolerance: numpy @); the whole catalogue compared bit for bit. search: 50-digit formula (1 µm), '
+         'reversibility bounds per set, J Q Jᵀ, symmetry/PSD.',
+    trusted_base=XF_TB,
+    assumptions=['the binary64 rounding share of the 1 µm is decided by search (50-digit oracle); in exact arithmetic the '
+                 'code equals the formula (theorem conform7_close)'],
+)
+
+PROPS['C07'] = dict(
+    module='GeodeVerif.Proofs.C07', namespace='GeodeVerif.C07',
+    extra_modules=['GeodeVerif.Proofs.C06'],
+    required_theorems=['add_params', 'pround8_close', 'before_epoch', 'conform14_is_conform7_of_add', 'conform14_close',
+                       'at_reference_epoch', 'catalogue_at_reference_epoch', 'atrf_identity_2020', 'conform14_round_trip',
+                       'atrf_mutual_inverse_1980_2060', 'wrappers_use_plate_model'],
+    tie_functions=['Transform.conform14', 'Constants.Transformation.add', 'Transform.transform_atrf2014_to_gda2020',
+                   'Transform.transform_gda2020_to_atrf2014'],
+    tie_n={'quick': 4000, 'thorough': 200000},
+    probe='C07.py',
+    rule='tie: dated shipped and random sets, epochs 1980..2060 incl. reference epochs and leap days; GenF vs real '
+         'conform14 / __add__ (dates through the proleptic-Gregorian day count, compared with datetime). search: formula with '
+         'linearly advanced parameters (2 µm), reference epoch, reversibility, ATRF wrappers, call-history independence.',
+    trusted_base=XF_TB + ['Py.daysFromCivil (day count of a civil date); agreement with datetime.date is part of the tie'],
+    assumptions=['binary64 rounding share of the 2 µm is decided by search'],
+)
+
+PROPS['C17'] = dict(
+    module='GeodeVerif.Proofs.C17', namespace='GeodeVerif.C17',
+    extra_modules=['GeodeVerif.Model.Ntv2'], drivers=['ntvdrv'],
+    required_theorems=['bilinear_blend', 'bilinear_at_node', 'bilinear_reproduces_linear', 'bicubic_at_node',
+                       'bicubic_reproduces_biquadratic', 'bicubic_reproduces_linear', 'cinv_mul_hermite', 'bicubic_hermite',
+                       'finest_subgrid', 'finest_order_independent', 'interpolate_outside', 'ntv2_2d_outside', 'shift_signs',
+                       'data_offset', 'cellOf_bounds', 'row_col', 'bilinear_nodes', 'bicubic_nodes', 'stencil_inside_iff',
+                       'bilinear_reads_in_subgrid', 'bicubic_reads_in_subgrid'],
+    needs_driver=False,
+    correspondence='corr_ntv2.py',
+    probe='C17.py',
+    rule='correspondence (hand model Model/Ntv2.lean, driver ntvdrv): synthetic .gsb files (1-4 sub-grids nested/disjoint, '
+         '3-60 rows/cols, 30"-3600" and decimal increments, both longitude signs, float32-exact polynomial and noise fields, '
+         '12 % malformed), header objects and interpolation results compared bitwise with the real reader under several '
+         'PYTHONHASHSEEDs; query points on nodes, edges, interiors, the outer ring and within ulps of every extent. search: '
+         'Fraction oracle of the generating polynomial and a tracing file object that checks which bytes are read.',
+    trusted_base=['Model/Ntv2.lean is a hand-written model of ntv2reader.py and transform.ntv2_2d, tied to the code only by the '
+                  'correspondence run (sampled); numpy round/matmul facts measured and modelled (rint(x*1e6)/1e6; '
+                  'left-to-right sums, exact for float32-exact fields)'],
+    assumptions=['binary64 evaluation of lat*3600, the quotients and the blend is covered by correspondence/search, not proved',
+                 'header decoding round trip and the 6-decimal rounding budget are checked by correspondence only'],
+)
